@@ -363,8 +363,12 @@ def _is_safe_output_type_change(
             and _is_safe_output_type_change(old_type, new_type.type)
         )
     elif isinstance(old_type, ListType):
+        # List items are output positions too: dropping a non-null inside the
+        # list is breaking. Making the items non-null is still reported as it
+        # always has been.
         return (
             isinstance(new_type, ListType)
+            and _is_safe_output_type_change(old_type.type, new_type.type)
             and _is_safe_input_type_change(old_type.type, new_type.type)
         ) or (
             isinstance(new_type, NonNullType)
